@@ -947,8 +947,13 @@ def _f_outside(rng, bounds):
     i = rng.randrange(len(bounds))
     lo, hi = bounds[i]
     size = hi - lo
+    import math
+
     p[i] = rng.choice([hi + size * rng.uniform(0.001, 2.5), lo - size * rng.uniform(0.001, 2.5), hi + 1e-9 * max(1.0, abs(hi)),
-                       lo - 1e-9 * max(1.0, abs(lo)), hi + size, lo - size])
+                       lo - 1e-9 * max(1.0, abs(lo)), hi + size, lo - size,
+                       # one ulp outside: (x - lo) % size rounds to size itself when |lo| is small against size, so the
+                       # wrapped coordinate is hi and a second wrap would send it to lo
+                       math.nextafter(lo, -math.inf), math.nextafter(hi, math.inf), lo - 1e-20 if lo == 0.0 else lo - size * 3])
     return p
 
 
